@@ -1,12 +1,17 @@
 import RlibModel.Model.Rational
 /-! Line-protocol driver for engine `rational` (property C07).
 
-Case lines (`ty` ∈ i32 | i64 | i128):
-  `newint:ty n` · `new:ty a b` · `neg:ty a b` · `floor:ty a b` · `ceil:ty a b` · `show:ty a b`
+Case lines (`ty` ∈ i8 | i16 | i32 | i64 | i128 | isize):
+  `newint:ty n` · `consts:ty` · `new:ty a b` · `neg:ty a b` · `floor:ty a b` · `ceil:ty a b` · `show:ty a b`
   `add|sub|mul|div|cmp|eq:ty a b c d`        (operands are `new(a,b)` and `new(c,d)`)
+  `chain:ty op1 op2 a b c d e f`             (`(new(a,b) op1 new(c,d)) op2 new(e,f)`: a returned value re-used as an operand)
+  `sort:ty a1 b1 a2 b2 …`                    (the values `new(ai,bi)` in non-decreasing order; the harness checks every
+                                              order- / equality- / hash- / clone-based view of them against it)
 Results: a fraction is printed as `a b` (the two public fields), orderings as `lt|eq|gt`, booleans as
-`true|false`, `show` as the `Display` string.  `S` is computed with core Lean's `Rat` and is `any` when the
-case is outside the property's domain (zero denominator / divisor, or an operand above the magnitude guard). -/
+`true|false`, `show` as the `Display` string, a sorted list as `[a/b,…]`.  `S` is computed with core Lean's `Rat`; it is
+`any` when the case is outside the property's domain — the EDGE domain of `Model/Rational.lean` (`domNew`, `BinOp.dom`,
+`domSub`, `domFloor`, `domCeil`, `domPairs`): non-zero denominators / divisor and every specified intermediate value
+representable in `ty`.  `Props/C07.lean` (`*_edge_machine`) proves `M = S` on that domain for every signed type. -/
 open Rlib Rlib.Rational
 
 def showQ (x : Q) : String := s!"{x.a} {x.b}"
@@ -22,47 +27,93 @@ def answerDom {α} (dom : Bool) (f : α → String) (m : Except Panic α) (s : S
 def showOrd : Ordering → String
   | .lt => "lt" | .eq => "eq" | .gt => "gt"
 
-def unary (t : IntTy) (a b : Int) (f : Q → Except Panic Q) (sp : Rat → Q) : String :=
+def unary (t : IntTy) (a b : Int) (f : Q → Except Panic Q) (sp : Rat → Q) (extraDom : Q → Bool := fun _ => true) : String :=
   let m := (do let x ← new (some t) a b; f x)
-  let dom := b ≠ 0 ∧ inGuard t a ∧ inGuard t b
+  let dom := t.signed && domNew t a b && extraDom (ofRat (Rat.divInt a b))
   answerDom dom showQ m (showQ (sp (Rat.divInt a b)))
 
 def binary {α} (t : IntTy) (a b c d : Int) (f : Q → Q → Except Panic α) (sh : α → String)
-    (sp : Rat → Rat → String) (extraDom : Bool := true) : String :=
+    (sp : Rat → Rat → String) (extraDom : Q → Q → Bool) : String :=
   let m := (do let x ← new (some t) a b; let y ← new (some t) c d; f x y)
-  let dom := b ≠ 0 ∧ d ≠ 0 ∧ extraDom ∧ inGuard t a ∧ inGuard t b ∧ inGuard t c ∧ inGuard t d
+  let dom := t.signed && domNew t a b && domNew t c d && extraDom (ofRat (Rat.divInt a b)) (ofRat (Rat.divInt c d))
   answerDom dom sh m (sp (Rat.divInt a b) (Rat.divInt c d))
+
+def binop (t : IntTy) (op : BinOp) (a b c d : Int) : String :=
+  binary t a b c d (op.apply (some t)) showQ (fun p q => showQ (ofRat (op.spec p q))) (op.dom t)
+
+def chain (t : IntTy) (op1 op2 : BinOp) (a b c d e f : Int) : String :=
+  let m := (do
+    let x ← new (some t) a b; let y ← new (some t) c d; let z ← new (some t) e f
+    let r ← op1.apply (some t) x y
+    op2.apply (some t) r z)
+  let p := Rat.divInt a b; let q := Rat.divInt c d; let u := Rat.divInt e f
+  let dom := t.signed && domNew t a b && domNew t c d && domNew t e f && op1.dom t (ofRat p) (ofRat q) &&
+    op2.dom t (ofRat (op1.spec p q)) (ofRat u)
+  answerDom dom showQ m (showQ (ofRat (op2.spec (op1.spec p q) u)))
+
+def pairsOf : List Int → Option (List (Int × Int))
+  | [] => some []
+  | a :: b :: rest => (pairsOf rest).map ((a, b) :: ·)
+  | _ => none
+
+def showSorted (xs : List Q) : String := showListWith render xs
+
+def sortCase (t : IntTy) (ps : List (Int × Int)) : String :=
+  let m : Except Panic (List Q) := (do
+    let xs ← ps.mapM (fun p => new (some t) p.1 p.2)
+    pure ((sortSpec (xs.map toRat)).map ofRat))
+  let rs := ps.map (fun p => Rat.divInt p.1 p.2)
+  let dom := t.signed && ps.all (fun p => domNew t p.1 p.2) && domPairs t (rs.map ofRat)
+  answerDom dom showSorted m (showSorted ((sortSpec rs).map ofRat))
 
 def handle (line : String) : String :=
   match tokens line with
   | [] => badLine line
   | op :: rest =>
+  match splitTy op with
+  | ("chain", some t) =>
+    match rest with
+    | o1 :: o2 :: nums =>
+      match BinOp.parse? o1, BinOp.parse? o2, parseInts? nums with
+      | some op1, some op2, some [a, b, c, d, e, f] => chain t op1 op2 a b c d e f
+      | _, _, _ => badLine line
+    | _ => badLine line
+  | ("sort", some t) =>
+    match (parseInts? rest).bind pairsOf with
+    | some (p :: ps) => sortCase t (p :: ps)
+    | _ => badLine line
+  | ("consts", some t) =>
+    -- `ZeroOne::ZERO` / `ONE` must be the canonical forms of 0 and 1
+    if rest.isEmpty then
+      answerDom t.signed id (.ok s!"{showQ (newInt 0)} {showQ (newInt 1)}") s!"{showQ (ofRat 0)} {showQ (ofRat 1)}"
+    else badLine line
+  | _ =>
   match splitTy op, parseInts? rest with
   | ("newint", some t), some [n] =>
-    -- `new_int` performs no arithmetic; in the domain (guarded n) it must be the canonical form of the integer n
-    if t.fits n then answerDom (inGuard t n) showQ (.ok (newInt n)) (showQ (ofRat (n : Rat)))
+    -- `new_int` performs no arithmetic: every representable n (the minimum included) must give the canonical form of n
+    if t.fits n then answerDom t.signed showQ (.ok (newInt n)) (showQ (ofRat (n : Rat)))
     else answer "INVALID" "any"
   | (op, some t), some [a, b] =>
     match op with
     | "new" => unary t a b (fun x => pure x) ofRat
     | "neg" => unary t a b (neg (some t)) (fun q => ofRat (-q))
-    | "floor" => unary t a b (floor (some t)) (fun q => ⟨q.floor, 1⟩)
-    | "ceil" => unary t a b (ceil (some t)) (fun q => ⟨q.ceil, 1⟩)
+    | "floor" => unary t a b (floor (some t)) (fun q => ⟨q.floor, 1⟩) (domFloor t)
+    | "ceil" => unary t a b (ceil (some t)) (fun q => ⟨q.ceil, 1⟩) (domCeil t)
     | "show" =>
       let m := new (some t) a b
-      let dom := b ≠ 0 ∧ inGuard t a ∧ inGuard t b
+      let dom := t.signed && domNew t a b
       -- the spec string is built from `Rat.num`/`Rat.den` directly, not through the model's `render`
       let q := Rat.divInt a b
       answerDom dom render m s!"{q.num}/{q.den}"
     | _ => badLine line
   | (op, some t), some [a, b, c, d] =>
     match op with
-    | "add" => binary t a b c d (add (some t)) showQ (fun p q => showQ (ofRat (p + q)))
-    | "sub" => binary t a b c d (sub (some t)) showQ (fun p q => showQ (ofRat (p - q)))
-    | "mul" => binary t a b c d (mul (some t)) showQ (fun p q => showQ (ofRat (p * q)))
-    | "div" => binary t a b c d (div (some t)) showQ (fun p q => showQ (ofRat (p / q))) (c ≠ 0)
-    | "cmp" => binary t a b c d (cmp (some t)) showOrd (fun p q => showOrd (specCmp p q))
-    | "eq" => binary t a b c d (fun x y => pure (decide (x = y))) showBool (fun p q => showBool (decide (p = q)))
+    | "add" => binop t .add a b c d
+    | "sub" => binop t .sub a b c d
+    | "mul" => binop t .mul a b c d
+    | "div" => binop t .div a b c d
+    | "cmp" => binary t a b c d (cmp (some t)) showOrd (fun p q => showOrd (specCmp p q)) (domSub t)
+    | "eq" => binary t a b c d (fun x y => pure (decide (x = y))) showBool (fun p q => showBool (decide (p = q))) (fun _ _ => true)
     | _ => badLine line
   | _, _ => badLine line
 
